@@ -6,9 +6,11 @@
    model: the run is a function of (network, inputs) (a Gallina function: determinism is by construction), running
    period by period equals the batch run for every split of the horizon, customers are served in successor order
    from what the earlier ones left, backorders before new demand.
-   NOT proved: invariance under renumbering the nodes ([relabel_statement]); decided on the implementation by
-   reindex_nodes-then-simulate runs. *)
-From SV Require Import Sim.Model Sim.Inv_base Sim.Policy_thms Sim.Example.
+   Renumbering (Sim/Relabel.v): for EVERY network, inputs and injective renumbering f, the run of the renumbered network is
+   the renamed run — every state variable, pipeline, cost and the whole observation table — with no well-formedness
+   hypothesis (every function of the model is shown equivariant, incl. the two depth-first traversals and the echelon
+   quantities). On the implementation the same clause is exercised by relabelled-case and reindex_nodes runs. *)
+From SV Require Import Sim.Model Sim.Inv_base Sim.Policy_thms Sim.Obs Sim.Example Sim.Relabel.
 
 Theorem C06_step_batch : forall NW a b s, run_from NW s (a ++ b) = run_from NW s a ++ run_from NW (state_after NW s a) b.
 Proof. exact step_batch. Qed.
@@ -23,8 +25,37 @@ Theorem C06_backorders_before_new_demand : forall oh bo io odi, 0 <= oh -> 0 <= 
   (0 < o_dmfs o -> bo <= o_os o) /\ (o_os o - odi <= bo -> o_bo o == bo + io - (o_os o - odi)) /\ o_dmfs o <= io + odi.
 Proof. exact backorders_before_new_demand. Qed.
 
-Definition relabel_statement : Prop :=
-  forall (NW : net) (f : N -> N), (forall a b, f a = f b -> a = b) -> True (* run (f . NW) (f . inputs) = f . run NW inputs *).
+(* renumbering the nodes only renames the trajectory. [renumbers f NW NW1]: NW1 lists the nodes f n and its configuration at f n
+   is that of n with the neighbour lists mapped by f; [renumbers_inputs]: the disruption flags / demands of f n are those of n *)
+Theorem C06_relabel_run : forall (f : N -> N), (forall a b, f a = f b -> a = b) ->
+  forall (NW NW1 : net) (inputs inputs1 : list ((N -> bool) * (N -> Q))), renumbers f NW NW1 -> renumbers_inputs f inputs inputs1 ->
+  run NW1 inputs1 = map (ren_st f) (run NW inputs).
+Proof. exact relabel_gen_run. Qed.
+Theorem C06_relabel_every_state_variable : forall (f : N -> N), (forall a b, f a = f b -> a = b) ->
+  forall (NW NW1 : net) (inputs inputs1 : list ((N -> bool) * (N -> Q))), renumbers f NW NW1 -> renumbers_inputs f inputs inputs1 ->
+  length (run NW1 inputs1) = length (run NW inputs) /\
+  forall (t : nat),
+    (forall k : key, gq (nth t (run NW1 inputs1) empty_st) (ren_key f k) = gq (nth t (run NW inputs) empty_st) k) /\
+    (forall k : key, gl (nth t (run NW1 inputs1) empty_st) (ren_key f k) = gl (nth t (run NW inputs) empty_st) k) /\
+    (forall n : N, node_costs NW1 (nth t (run NW1 inputs1) empty_st) (f n) = node_costs NW (nth t (run NW inputs) empty_st) n).
+Proof. exact relabel_gen_read. Qed.
+Theorem C06_relabel_total_cost : forall (f : N -> N), (forall a b, f a = f b -> a = b) ->
+  forall (NW NW1 : net) (inputs inputs1 : list ((N -> bool) * (N -> Q))), renumbers f NW NW1 -> renumbers_inputs f inputs inputs1 ->
+  total_cost NW1 (run NW1 inputs1) = total_cost NW (run NW inputs).
+Proof. exact relabel_gen_total_cost. Qed.
+(* the explicit renumbered network, for f with a left inverse g *)
+Theorem C06_relabel_explicit : forall (f g : N -> N), (forall x, g (f x) = x) -> forall (NW : net) (inputs : list ((N -> bool) * (N -> Q))),
+  run (ren_net f g NW) (ren_inputs g inputs) = map (ren_st f) (run NW inputs).
+Proof. exact relabel_run. Qed.
+(* the hypotheses are satisfiable and the renamed values are non-zero: ex_net renumbered by x+100 and by swapping 1 and 3 *)
+Example C06_relabel_nonvacuous :
+  let r := run ex_net ex_inputs in
+  let r2 := run (ren_net ex_sw ex_sw ex_net) (ren_inputs ex_sw ex_inputs) in
+  (forall x, ex_sw (ex_sw x) = x) /\ length r2 = 8%nat
+  /\ gq (nth 5 r2 empty_st) (fBO, 2%N, Nd 1%N) = gq (nth 5 r empty_st) (fBO, 2%N, Nd 3%N) /\ 0 < gq (nth 5 r empty_st) (fBO, 2%N, Nd 3%N)
+  /\ renumbers ex_sw ex_net ex_net_sw /\ renumbers_inputs ex_sw ex_inputs ex_inputs_sw.
+Proof. split; [exact ex_sw_sw|]. split; [vm_compute; reflexivity|]. split; [vm_compute; reflexivity|]. split; [vm_compute; reflexivity|].
+  split; [exact ex_net_sw_renumbers|exact ex_inputs_sw_renumbers]. Qed.
 
 Example C06_nonvacuous : length (run ex_net ex_inputs) = 8%nat /\
   run ex_net ex_inputs = run ex_net (firstn 3 ex_inputs) ++ run_from ex_net (state_after ex_net (init_state ex_net) (firstn 3 ex_inputs)) (skipn 3 ex_inputs).
@@ -34,3 +65,7 @@ Print Assumptions C06_step_batch.
 Print Assumptions C06_one_record_per_period.
 Print Assumptions C06_served_in_successor_order.
 Print Assumptions C06_backorders_before_new_demand.
+Print Assumptions C06_relabel_run.
+Print Assumptions C06_relabel_every_state_variable.
+Print Assumptions C06_relabel_total_cost.
+Print Assumptions C06_relabel_explicit.
